@@ -115,7 +115,7 @@ func vStoreCommitApply(L, maxQ int) {
 	vReach("end")
 }
 
-//verif:check C07,C03 stubs=env,valuefile,abslog reach=lost,closed,end desc="leader.release fails every still-queued task exactly once (NotLeaderError{Lost:true}, or ErrServerClosed when shutting down), and a task already completed is not completed again" bounds="leader with 2 voters, log of 1 entry, batch of up to 2 tasks, symbolic commit progress before release; every way leadership can end"
+//verif:check C07,C03,C15 stubs=env,valuefile,abslog reach=lost,closed,end desc="leader.release fails every still-queued task exactly once (NotLeaderError{Lost:true}, or ErrServerClosed when shutting down), and a task already completed is not completed again" bounds="leader with 2 voters, log of 1 entry, batch of up to 2 tasks, symbolic commit progress before release; every way leadership can end"
 func VH_C07_release() { vRelease(1, 2) }
 
 //verif:check C07 tier=thorough stubs=env,valuefile,abslog reach=lost,closed,end desc="as VH_C07_release, deeper" bounds="log of 2 entries, batch of up to 3 tasks"
